@@ -47,6 +47,10 @@ pub struct CacheSpec {
     /// again (every asset is registered twice) right before the drop
     #[serde(default)]
     bulk: u8,
+    /// filesystem source only: the cache is created while the process can open exactly `fd_budget - 1` more file
+    /// descriptors (0 = no limit): the watcher cannot be set up, or only partly
+    #[serde(default)]
+    fd_budget: u8,
 }
 
 #[derive(Debug, Clone, Serialize, Deserialize)]
@@ -56,6 +60,9 @@ pub struct Case {
     /// successful load_owned; once that failure has happened the reloader is idle
     #[serde(default)]
     static_failing: bool,
+    /// the same, but the compound's loader panics during the reload instead of returning an error
+    #[serde(default)]
+    static_panicking: bool,
 }
 
 /// Loads a manifest with `load_owned` (which tells the reloader about the manifest), then a part with `load`.
@@ -68,15 +75,29 @@ impl assets_manager::Compound for Bundle {
     }
 }
 
+/// Like `Bundle`, but its loader panics when the manifest is not at its first version (that is, in every reload).
+struct PanickyBundle;
+impl assets_manager::Compound for PanickyBundle {
+    fn load(cache: assets_manager::AnyCache, _id: &assets_manager::SharedString) -> Result<Self, assets_manager::BoxedError> {
+        let manifest = cache.load_owned::<Ver>("manifest")?;
+        let _part = cache.load::<Ver>("part")?;
+        if manifest.0 != 1 {
+            panic!("C15: this loader panics on the second version of its manifest");
+        }
+        Ok(PanickyBundle)
+    }
+}
+
 /// A compound of a 'static cache whose reload fails (its part is gone) after it loaded the manifest with
 /// load_owned: the failure is not a change; once it has happened nothing runs until the next notification.
-fn static_cache_with_failing_reload(out: &mut Outcome) {
+fn static_cache_with_failing_reload(out: &mut Outcome, panics: bool) {
     let before = reloader_tids();
     let src = MemSource::new(true);
     src.tree().put("manifest", "v", b"1".to_vec(), Variant::Buffer);
     src.tree().put("part", "v", b"1".to_vec(), Variant::Buffer);
     let cache: &'static AssetCache<MemSource> = Box::leak(Box::new(AssetCache::with_source(src.handle())));
-    if cache.load::<Bundle>("b").is_err() {
+    let loaded = if panics { cache.load::<PanickyBundle>("b").is_ok() } else { cache.load::<Bundle>("b").is_ok() };
+    if !loaded {
         out.fail("harness", "the bundle did not load");
         return;
     }
@@ -111,7 +132,7 @@ fn static_cache_with_failing_reload(out: &mut Outcome) {
         if b - a > 2 || reads_b > 8 {
             out.fail(
                 "busy-while-idle",
-                format!("a 'static cache (enhance_hot_reloading) holds a compound whose reload failed (it loads a manifest with load_owned, then a part that is gone): in a 400 ms window in which nothing changed its reloader thread used {} CPU ticks (10 ms each) and read the source {reads_b} times (state {state}; {reads_a} reads during the 300 ms before)", b - a),
+                format!("a 'static cache (enhance_hot_reloading) holds a compound whose reload {} (it loads a manifest with load_owned, then a part that is gone): in a 400 ms window in which nothing changed its reloader thread used {} CPU ticks (10 ms each) and read the source {reads_b} times (state {state}; {reads_a} reads during the 300 ms before)", if panics { "panicked" } else { "failed" }, b - a),
             );
             return;
         }
@@ -119,7 +140,64 @@ fn static_cache_with_failing_reload(out: &mut Outcome) {
     // and hot-reloading still works: the part comes back
     src.tree().put("part", "v", b"3".to_vec(), Variant::Buffer);
     src.send(&OwnedEntry::File("part".into(), "v".into()));
-    out.label("static-cache-with-failing-compound");
+    out.label(if panics { "static-cache-with-panicking-compound" } else { "static-cache-with-failing-compound" });
+}
+
+/// Runs `f` while the process can open exactly `free` more file descriptors: new descriptors get the lowest unused
+/// number, which must be below the soft limit, so the limit is put right above the `free`-th unused number.
+fn with_fd_budget<R>(free: u64, f: impl FnOnce() -> R) -> R {
+    unsafe {
+        let mut old = libc::rlimit { rlim_cur: 0, rlim_max: 0 };
+        if libc::getrlimit(libc::RLIMIT_NOFILE, &mut old) != 0 {
+            return f();
+        }
+        let mut n: u64 = 0;
+        let mut left = free;
+        loop {
+            let open = libc::fcntl(n as libc::c_int, libc::F_GETFD) != -1;
+            if !open {
+                if left == 0 {
+                    break;
+                }
+                left -= 1;
+            }
+            n += 1;
+        }
+        let tight = libc::rlimit { rlim_cur: n.min(old.rlim_cur as u64) as libc::rlim_t, rlim_max: old.rlim_max };
+        if libc::setrlimit(libc::RLIMIT_NOFILE, &tight) != 0 {
+            return f();
+        }
+        struct Restore(libc::rlimit);
+        impl Drop for Restore {
+            fn drop(&mut self) {
+                unsafe {
+                    libc::setrlimit(libc::RLIMIT_NOFILE, &self.0);
+                }
+            }
+        }
+        let _restore = Restore(old);
+        f()
+    }
+}
+
+fn all_tids() -> BTreeSet<u32> {
+    procfs::self_threads().into_iter().map(|t| t.tid).collect()
+}
+
+/// How many times the thread went to sleep of its own accord (a thread that sleeps for good keeps its count).
+fn wakeups_of(tid: u32) -> Option<(u64, String)> {
+    let s = std::fs::read_to_string(format!("/proc/self/task/{tid}/status")).ok()?;
+    let mut name = String::new();
+    let mut n = None;
+    for l in s.lines() {
+        if let Some(v) = l.strip_prefix("Name:") {
+            name = v.trim().to_string();
+        }
+        if let Some(v) = l.strip_prefix("voluntary_ctxt_switches:") {
+            n = v.trim().parse().ok();
+        }
+    }
+    n.map(|n| (n, name))
 }
 
 enum Live {
@@ -230,7 +308,7 @@ impl Prop for C15 {
     fn rule(&self) -> String {
         "cases = sequences over 1..4 caches with hot-reloading on an in-memory (custom) source, a custom source owning an event-producing thread (stopped by Disconnected from EventSender::send, joined by the source's destructor) or a real FileSystem source in a temp dir: create, load k assets (sometimes 10..24 thousand, cleared and loaded again, so that every one is registered twice), send events, call hot_reload, optionally let the source drop its EventSender, \
          then drop the cache while idle / right after hot_reload / with events still queued / right after loads; for filesystem caches optionally change files in the directory afterwards (an asset, or only a file that maps to no id). \
-         in a third of the cases first a leaked ('static) cache in enhance_hot_reloading mode with a compound that loads a manifest with load_owned and then a part: the part disappears, the reload fails, and from then on the reloader is idle; Oracle from /proc/self/task (per-thread CPU ticks and states, never wall-clock latency): while the harness idles for 400 ms every live reloader thread accrues <= 2 ticks; during the 2 s after the drops each reloader thread of a dropped cache \
+         in a third of the cases first a leaked ('static) cache in enhance_hot_reloading mode with a compound that loads a manifest with load_owned and then a part: the part disappears, the reload fails, and from then on the reloader is idle (in a quarter of the cases also the same with a loader that panics instead); a third of the filesystem caches are created while the process can open only 0..4 more file descriptors (soft RLIMIT_NOFILE put right above the k-th unused number for the duration of AssetCache::new), so that the watcher cannot be set up or only partly: a thread that appeared during that creation and, 2.5 s after the drop, still wakes up (voluntary context switches of /proc/self/task/<tid>/status grow in both observation windows) is a violation; Oracle from /proc/self/task (per-thread CPU ticks and states, never wall-clock latency): while the harness idles for 400 ms every live reloader thread accrues <= 2 ticks; during the 2 s after the drops each reloader thread of a dropped cache \
          has disappeared, or at least did not accrue >= 25 ticks while still running in the last 500 ms; after a change in a dropped filesystem cache's directory its watcher thread is gone too (thread count back to the baseline, polled for up to 10 s); dropping a cache on the feeder source finishes before the feeder got 3000 more events accepted (3 million when 2..4 extra threads flood the channel from just before the drop on). \
          non-trivial = a drop with events still queued or right after a hot_reload, or a source that dropped its sender, or a filesystem cache; distinct = different canonical JSON"
             .into()
@@ -266,20 +344,43 @@ impl Prop for C15 {
             0u8..3,
             prop_oneof![1 => Just(0u8), 1 => 2u8..5],
             prop_oneof![5 => Just(0u8), 1 => 10u8..25],
+            prop_oneof![1 => Just(0u8), 1 => 1u8..6],
         )
-            .prop_map(|(kind, loads, events, hot_reloads, timing, drop_sender, after_drop, flooders, bulk)| CacheSpec { kind, loads, events, hot_reloads, timing, drop_sender, after_drop, flooders: if kind == SrcKind::Feeder { flooders } else { 0 }, bulk: if kind == SrcKind::Mem { bulk } else { 0 } });
-        (prop::collection::vec(spec, 1..4), prop::bool::weighted(0.3)).prop_map(|(caches, static_failing)| to_case(&Case { caches, static_failing })).boxed()
+            .prop_map(|(kind, loads, events, hot_reloads, timing, drop_sender, after_drop, flooders, bulk, fd_budget)| CacheSpec {
+                kind,
+                loads,
+                events,
+                hot_reloads,
+                timing,
+                drop_sender,
+                after_drop: if kind == SrcKind::Fs && fd_budget > 0 { 0 } else { after_drop },
+                flooders: if kind == SrcKind::Feeder { flooders } else { 0 },
+                bulk: if kind == SrcKind::Mem { bulk } else { 0 },
+                fd_budget: if kind == SrcKind::Fs { fd_budget } else { 0 },
+            });
+        (prop::collection::vec(spec, 1..4), prop::bool::weighted(0.3), prop::bool::weighted(0.25))
+            .prop_map(|(caches, static_failing, static_panicking)| to_case(&Case { caches, static_failing, static_panicking }))
+            .boxed()
     }
 
     fn run(&self, case: &Value) -> Outcome {
         let c: Case = from_case(case);
         let mut out = Outcome::new();
         if c.static_failing {
-            static_cache_with_failing_reload(&mut out);
+            static_cache_with_failing_reload(&mut out, false);
             if out.failed() {
                 return out;
             }
         }
+        if c.static_panicking {
+            static_cache_with_failing_reload(&mut out, true);
+            if out.failed() {
+                return out;
+            }
+        }
+        // threads that appeared while a cache was created under a file-descriptor budget
+        let mut starved_threads: Vec<(u32, u8)> = Vec::new();
+        let mut starved = false;
         let baseline_notify = notify_threads();
         let mut live: Vec<(Live, Option<u32>, &CacheSpec)> = Vec::new();
         // ---- create and use
@@ -307,7 +408,16 @@ impl Prop for C15 {
                     for i in 0..4 {
                         std::fs::write(dir.join(format!("a{i}.v")), b"1").expect("write");
                     }
-                    match AssetCache::new(&dir) {
+                    let made = if spec.fd_budget > 0 {
+                        let tids = all_tids();
+                        let made = with_fd_budget(spec.fd_budget as u64 - 1, || AssetCache::new(&dir));
+                        starved_threads.extend(all_tids().difference(&tids).map(|t| (*t, spec.fd_budget)));
+                        starved = true;
+                        made
+                    } else {
+                        AssetCache::new(&dir)
+                    };
+                    match made {
                         Ok(cache) => Live::Fs(cache, dir),
                         Err(_) => continue,
                     }
@@ -499,9 +609,22 @@ impl Prop for C15 {
             }
         }
         // ---- after the drop: the reloader stops
+        let w0: Vec<Option<(u64, String)>> = starved_threads.iter().map(|(tid, _)| wakeups_of(*tid)).collect();
         std::thread::sleep(Duration::from_millis(1500));
         let mid: Vec<Option<(u64, char)>> = watched.iter().map(|(tid, _, _)| ticks_of(*tid)).collect();
-        std::thread::sleep(Duration::from_millis(500));
+        let w1: Vec<Option<(u64, String)>> = starved_threads.iter().map(|(tid, _)| wakeups_of(*tid)).collect();
+        std::thread::sleep(Duration::from_millis(1000));
+        for (i, (tid, budget)) in starved_threads.iter().enumerate() {
+            if let (Some((a, _)), Some((b, _)), Some((e, name))) = (&w0[i], &w1[i], wakeups_of(*tid)) {
+                if b - a >= 2 && e - b >= 1 {
+                    out.fail(
+                        "thread-runs-after-drop",
+                        format!("a filesystem cache was created while the process could open only {} more file descriptor(s) and dropped later: 2.5 s after the drop a thread that appeared during its creation ({name:?}, tid {tid}) still exists and keeps waking up although nothing changes ({} times during the first 1.5 s, {} during the last second)", budget - 1, b - a, e - b),
+                    );
+                    return out;
+                }
+            }
+        }
         for (i, (tid, kind, t0)) in watched.iter().enumerate() {
             if let (Some((m, _)), Some((e, state))) = (mid[i], ticks_of(*tid)) {
                 if e - t0 >= 25 && e - m >= 5 {
@@ -567,10 +690,13 @@ impl Prop for C15 {
         if fs_checked {
             out.label("fs-change-after-drop");
         }
+        if starved {
+            out.label("fs-cache-created-under-a-descriptor-budget");
+        }
         out
     }
 
     fn required_labels(&self) -> Vec<&'static str> {
-        vec!["drop-with-queued-events / right-after-hot_reload", "source-dropped-sender", "filesystem-cache", "source-with-feeder-thread", "drop-under-notification-flood", "thousands-of-assets-registered-twice", "static-cache-with-failing-compound"]
+        vec!["drop-with-queued-events / right-after-hot_reload", "source-dropped-sender", "filesystem-cache", "source-with-feeder-thread", "drop-under-notification-flood", "thousands-of-assets-registered-twice", "static-cache-with-failing-compound", "static-cache-with-panicking-compound", "fs-cache-created-under-a-descriptor-budget"]
     }
 }
